@@ -165,6 +165,10 @@ type C09Spec struct {
 	// Cbs: property callbacks the application registers on the table, its
 	// columns, rows and cells at given points of the build (c09_callbacks.go).
 	Cbs []C09Cb `json:"cbs,omitempty"`
+	// ContentOnly: a table of the content streams (c09_r6.go): many cells, what
+	// matters is their text; the build is not also shipped as a history of the
+	// table machine (two more copies of every text in the Coq term).
+	ContentOnly bool `json:"content_only,omitempty"`
 }
 
 // c09Build builds the spec's table through the public API (with the
@@ -322,6 +326,10 @@ func init() {
 			}
 			// tables carrying property callbacks of the application (c09_callbacks.go)
 			for _, sp := range c09GenCallbacks(r, tier) {
+				out = append(out, mustJSON(sp))
+			}
+			// the byte content of the texts (c09_r6.go); last, so that the streams above keep their draws
+			for _, sp := range c09GenTexts(r, tier) {
 				out = append(out, mustJSON(sp))
 			}
 			return out
@@ -487,7 +495,7 @@ func init() {
 			// the pipeline case: the same build as a history of the table machine,
 			// judged against the view read back from the real table
 			pipe := "None"
-			if readBack && !sp.TwoTables {
+			if readBack && !sp.TwoTables && !sp.ContentOnly {
 				if pterm, ok := pipeCase(ts, view, csvOut); ok {
 					pipe = cqSome(pterm)
 					tags = append(tags, "pipeline-case")
@@ -496,7 +504,7 @@ func init() {
 			// ... and the same table on a real table of its own, some of whose mutable
 			// items are then changed in place and some of the cells holding them updated
 			pipeMut := "None"
-			if !sp.TwoTables {
+			if !sp.TwoTables && !sp.ContentOnly {
 				if mterm, ok := pipeMutCase(ts, uint64(len(spec))*2654435761+uint64(len(outs))); ok {
 					pipeMut = cqSome(mterm)
 					tags = append(tags, "pipeline-mutation-case")
@@ -563,6 +571,12 @@ func init() {
 		Shrink: func(spec json.RawMessage) []json.RawMessage {
 			sp := c09Parse(spec)
 			var out []json.RawMessage
+			if big := c09ShrinkBig(sp); big != nil { // large tables: halves first (c09_r6.go)
+				for _, c := range big {
+					out = append(out, mustJSON(c))
+				}
+				return out
+			}
 			with := func(f func(c *C09Spec)) {
 				c := sp
 				f(&c)
